@@ -344,6 +344,13 @@ class Gen:
             self.emit("u:valid-large-item", api, zip316.encode(kind, net, [(SAPLING, self.rb(KNOWN_LEN[kind][SAPLING])),
                                                                           (0x1234, self.rb(big))]), "accept",
                       kind == "addr")
+        # ZIP 316 bounds the *bytes* fed to Bech32m (4194368), not the characters of the string:
+        # 2621475 padded bytes encode to exactly 4194368 characters ("u" + "1" + 4194360 + 6)
+        for cls, padded in (("u:valid-string-of-4194368-chars", 2621475), ("u:valid-string-of-4194370-chars", 2621476)):
+            if self.tier == "thorough" or padded == 2621476:
+                n = padded - 16 - 45 - 3 - 5
+                self.emit(cls, "zaddr", zip316.encode("addr", "main", [(SAPLING, bytes(43)), (0xFFFF, bytes(n))]),
+                          "accept", True)
         if self.tier == "thorough":
             n = 4194368 - 16 - 1 - 5
             self.emit("u:total-length-max", "zaddr", zip316.encode("addr", "main", [(4, bytes(n))]), "accept", True)
